@@ -395,7 +395,11 @@ func resolveUnionBatch(ctx context.Context, sources []interface{}, typ *Union, s
 			union = union.Elem()
 		}
 		for typString := range typ.Types {
-			inner := union.FieldByName(typString)
+			fieldName := typString
+			if goField, ok := typ.GoFields[typString]; ok {
+				fieldName = goField
+			}
+			inner := union.FieldByName(fieldName)
 			if inner.IsNil() {
 				continue
 			}
